@@ -40,6 +40,8 @@ M = [
  ("C17_weibull_no_reset", "C17", "flodym/lifetime_models.py", 'def set_prms(self, weibull_shape: FlodymArray, weibull_scale: FlodymArray):\n        self._reset_tables()', 'def set_prms(self, weibull_shape: FlodymArray, weibull_scale: FlodymArray):', "Weibull set_prms does not invalidate"),
  ("C17_reset_after_first_param", "C17", "flodym/lifetime_models.py", 'def set_prms(self, mean: FlodymArray, std: FlodymArray):\n        self._reset_tables()\n        self.mean = self.cast_any_to_np_array(mean)\n        self.std = self.cast_any_to_np_array(std)', 'def set_prms(self, mean: FlodymArray, std: FlodymArray):\n        self.mean = self.cast_any_to_np_array(mean)\n        self._reset_tables()\n        self.std = self.cast_any_to_np_array(std)', "invalidate after storing the first of two parameters (harmless unless interrupted)"),
  ("C17_cohort_accumulates", "C17", "flodym/stocks.py", 'self._outflow_by_cohort = np.einsum(\n            "c...,tc...->tc...", self.inflow.values, self.lifetime_model.pdf\n        )', 'self._outflow_by_cohort = self._outflow_by_cohort * 0 + np.einsum(\n            "c...,tc...->tc...", self.inflow.values, self.lifetime_model.pdf\n        ) + (self._outflow_by_cohort > 1e300)', "cohort table accumulates on the previous one: history dependent when the previous result held NaN / inf (the check flags it, rightly)"),
+ ("C17_global_bounds_cache", "C17", "flodym/lifetime_models.py", '    def compute_t_bounds(self):\n        middle =', '    def compute_t_bounds(self):\n        key = len(self.dim.items)\n        if key in _BOUNDS_CACHE:\n            self._bounds = _BOUNDS_CACHE[key]\n            return\n        self._compute_t_bounds()\n        _BOUNDS_CACHE[key] = self._bounds\n\n    def _compute_t_bounds(self):\n        middle =', "module-level cache of interval bounds keyed by the number of time items only (state leaks between objects and runs)"),
+ ("C17_class_level_sf_cache", "C17", "flodym/lifetime_models.py", '        self._check_prms_set()\n        quad_eta, quad_weights = self.get_quad_points_and_weights()', '        self._check_prms_set()\n        key = (type(self).__name__, self._shape_cohort, tuple(float(np.sum(p)) for p in self.prms.values()))\n        if key in _SF_CACHE:\n            self._sf[...] = _SF_CACHE[key]\n            return\n        _SF_CACHE[key] = self._sf\n        quad_eta, quad_weights = self.get_quad_points_and_weights()', "module-level survival-table cache keyed by class, shape and the SUM of the parameters (ignores grid, inflow_at, per-label distribution)"),
  # ---- negative controls: property-preserving refactors, must NOT be flagged
  ("NC_C17_temp_copy", "C17", "flodym/stocks.py", 'self.outflow.values[...] = self._outflow_by_cohort.sum(axis=1)', 'tmp = self._outflow_by_cohort.sum(axis=1)\n        self.outflow.values[...] = tmp.copy()', "negative control: harmless temp copy"),
  ("NC_C14_copy_via_ctor", "C14", "flodym/dimensions.py", 'return self.model_copy(update={"dim_list": copy(self.dim_list)})', 'return DimensionSet(dim_list=list(self.dim_list))', "negative control: copy() through the constructor"),
@@ -80,6 +82,9 @@ def main():
             s2 = s.replace(old, new)
             if "np." in new and "import numpy as np" not in s2:
                 s2 = "import numpy as np\n" + s2
+            for glob in ("_BOUNDS_CACHE", "_SF_CACHE"):
+                if glob in new:
+                    s2 = s2.replace("\n\nclass UnevenTimeDim", f"\n\n{glob} = {{}}\n\n\nclass UnevenTimeDim", 1)
             open(p, "w").write(s2)
             d = subprocess.run(f"git -C {wt} diff", shell=True, capture_output=True, text=True).stdout
             open(os.path.join(VERIF, "mutants", f"hand_{name}.patch"), "w").write(d)
